@@ -176,7 +176,7 @@ PROPS = {
     },
     "C08": {
         "v_units": ["composer_base.py", "composer_bits_select.py", "gadget_lemmas.py"],
-        "r": [("composer_leaves", None)],
+        "r": [("composer_leaves", None), ("gadgets", lambda n: n.startswith("base."))],
         "claim": "code contracts (CANON model, all field values, all selector tuples): the Constraint builder, append_gate, "
                  "append_evaluated_output (all three q_O paths: exactly one row, output witness c with q_O*c + x = 0 mod r, None iff q_O = 0), "
                  "gate_add/gate_mul (returned witness == x), assert_equal, assert_equal_constant, append_constant, append_public, "
